@@ -925,7 +925,7 @@ pub fn replay(case: &Value) -> Result<String, String> {
     Ok(out.join("\n"))
 }
 
-pub const RULE: &str = "explicit-state breadth-first search from the empty handle table: creators (array, range, map, set_new, set_from_array, array_concat, set_to_array, map_keys), every mutator and query of the statement, is_array/is_map/is_set, release and release -r, each given every live handle, a released handle, an unknown text and a text that looks like a handle, indexes {0,1,2,-1,x}, values {a, empty, 'b c', 0 (, false, look-alike handle, e-acute)} and the handle of the collection itself or of the other live collection as array item, set member, map key and map value (release -r follows such references); growing operations are disabled at 2 live handles / length 2 so the space is finite and searched to a fixpoint. Each transition runs the real command, compares its output with the model (vector / map / set per live handle) and then the complete handle table (every collection equal to the model, no other entry) and the variable map (must stay empty). States are de-duplicated on the multiset of collection contents plus the implementation's remaining state. evaluations = transitions; distinct_nontrivial = distinct states";
+pub const RULE: &str = "explicit-state breadth-first search from the empty handle table: creators (array, range, map, set_new, set_from_array, array_concat, set_to_array, map_keys), every mutator and query of the statement, is_array/is_map/is_set, release and release -r, each given every live handle, a released handle, an unknown text and a text that looks like a handle, indexes {0,1,2,-1,x}, values {a, empty, 'b c', 0 (, false, look-alike handle, e-acute)} and the handle of the collection itself or of the other live collection as array item, set member, map key and map value (release -r follows such references); growing operations are disabled at 2 live handles / length 2 so the space is finite and searched to a fixpoint. Each transition runs the real command, compares its output with the model (vector / map / set per live handle) and then the complete handle table (every collection equal to the model, no other entry) and the variable map (must stay empty). States are de-duplicated on the multiset of collection contents plus the implementation's remaining state. evaluations = transitions; distinct_nontrivial = distinct states. Scale cases (scripts, results computed in Rust): an array / a map / a set with 10/70/300 (thorough 1000, 3000) items built, read at both ends, joined, searched, emptied; as many live handles held by one outer array and taken by a recursive release";
 pub const ASSUMPTIONS: &[&str] = &["listings whose order the documentation does not fix (map_keys, set_to_array) are compared as multisets and then sorted in place by the harness", "random handle names are opaque; a collision of two 20-character random names is outside the model", "operations are run through run_instruction with already-bound arguments"];
 pub const EXHAUSTIVE: bool = true;
 pub const WALL_CAP_S: (u64, u64) = (50, 1500);
